@@ -91,4 +91,20 @@ PROPS = {
             "depends on C01 through the regenerated walker table",
         ],
     },
+    "C06": {
+        "theorems": {
+            "Solstat.Props.C06": [
+                "payableFunction_exact", "privateConstant_exact", "privateVars_exact", "privateFunc_exact",
+                "mem_constructorOrderScan", "constructorOrder_local", "constructorOrder_exact",
+            ],
+            "Solstat.Props.C01": ["C01", "blocked_empty", "kinds_by_name"],
+        },
+        "obs": [("det", ["--nolines", "--hostile", "payable_function", "private_constant", "private_vars", "private_func", "constructor_order"])],
+        "kinds": ["DET"],
+        "groups": ["payablefunction", "privateconstant", "privatevars", "privatefunc", "constructororder"],
+        "assumptions": [
+            "the function definitions the walker finds below a contract node are that contract's direct members (true of parser output; the oracle recomputes the expected set from direct members and compares)",
+            "depends on C01 through the regenerated walker table",
+        ],
+    },
 }
